@@ -207,6 +207,36 @@ func genC06(w *bufio.Writer, tier string, rng *rand.Rand) {
 			}
 		}
 	}
+	// hypergeometric populations beyond 1000 (the statement has no upper bound on N): coefficients past the float64
+	// range (C(1100,550) > 1e308), central and tail points
+	for i := 0; i < pick(tier, 40, 800); i++ {
+		N := 1001 + rng.Intn(4000)
+		if rng.Intn(3) == 0 {
+			N = 1001 + rng.Intn(400)
+		}
+		K, D := rng.Intn(N+1), rng.Intn(N+1)
+		if rng.Intn(2) == 0 {
+			K, D = N/2+rng.Intn(61)-30, N/2+rng.Intn(61)-30
+		}
+		if rng.Intn(6) == 0 {
+			K = []int{30, 1, N - 1, N / 3}[rng.Intn(4)]
+		}
+		lo, hi := D+K-N, D
+		if lo < 0 {
+			lo = 0
+		}
+		if K < hi {
+			hi = K
+		}
+		mean := int(math.Round(float64(D) * float64(K) / float64(N)))
+		for _, k := range []int{mean, mean + 1, mean - 3, lo, hi, lo + rng.Intn(hi-lo+1)} {
+			if k < lo-1 || k > hi+1 {
+				continue
+			}
+			fmt.Fprintf(w, "hyp %d %d %d pmf %s\n", N, K, D, fmtF(float64(k)))
+			fmt.Fprintf(w, "hyp %d %d %d cdf %s\n", N, K, D, fmtF(float64(k)))
+		}
+	}
 	// and the same for the binomial: N at the top of the range, k in the extreme tails
 	for i := 0; i < pick(tier, 30, 600); i++ {
 		n := 1000 - rng.Intn(150)
